@@ -17,7 +17,7 @@ from ..symex import Symex, Unanalysable, show, show_pc
 from ..dispatch import Dispatch, operand_desc, strip_refs
 from ..evalterm import Evaluator, Enum, NoModel
 from ..roots_gen import TYPES
-from . import c02_kernels, c02_small
+from . import c02_kernels, c02_small, c02_linear
 
 LEVEL = "other"
 INTERSECTS = "geo::algorithm::intersects::Intersects"
@@ -55,6 +55,7 @@ def run(rep, tier):
     contains_dispatch(rep, F, DC)
     c02_kernels.run(rep, F, tier)
     c02_small.run(rep, F, DI, DC, tier)
+    c02_linear.run(rep, F, tier, D_int=DI)
 
 
 # ------------------------------------------------------------------------------------------------
